@@ -646,3 +646,7 @@ def run(ctx):
     c12.r4_by_ref_exact(ctx, ot.OpTables(ctx.prog), "C04.R10")
     r11_property_type_is_the_declared_element_type(ctx)
     r12_a_store_pops_the_path_it_built(ctx)
+    # an array or record lives in the memory block of its activation (or of its STATIC procedure): the indices that
+    # point to blocks stay right when a block is removed, or stores land in another procedure's array
+    from . import c03
+    c03.r1_index_stable(ctx, "C04.R13")
